@@ -168,6 +168,8 @@ impl FeoxStore {
                     return Err(FeoxError::OlderTimestamp);
                 }
                 crate::test_hooks::pause_at(crate::test_hooks::AFTER_UPSERT_READ);
+                #[cfg(feature = "verif")]
+                crate::verif::sched("insert.after_read", 0, 0);
 
                 match self.update_record_with_ttl(
                     &existing_record,
@@ -182,6 +184,8 @@ impl FeoxStore {
             }
 
             let reservation = self.reserve_memory(record_size)?;
+            #[cfg(feature = "verif")]
+            crate::verif::sched("mem.reserved", record_size as u64, 0);
 
             let record = if ttl_expiry > 0 && self.enable_ttl {
                 Arc::new(Record::new_with_timestamp_ttl(
@@ -219,6 +223,8 @@ impl FeoxStore {
             self.stats
                 .record_insert(start.elapsed().as_nanos() as u64, false);
 
+            #[cfg(feature = "verif")]
+            crate::verif::sched("insert.before_enqueue", 0, 0);
             if let (Some(wb), Some(record)) = (&self.write_buffer, buffered_record) {
                 wb.add_write(Operation::Insert, record, 0)?;
             }
@@ -297,6 +303,8 @@ impl FeoxStore {
             }
 
             let reservation = self.reserve_memory(new_size)?;
+            #[cfg(feature = "verif")]
+            crate::verif::sched("mem.reserved", new_size as u64, 0);
 
             let record = if ttl_expiry > 0 {
                 Arc::new(Record::new_from_bytes_with_ttl(
@@ -338,6 +346,8 @@ impl FeoxStore {
             self.stats
                 .record_insert(start.elapsed().as_nanos() as u64, false);
 
+            #[cfg(feature = "verif")]
+            crate::verif::sched("insert.before_enqueue", 0, 0);
             if let (Some(wb), Some(record)) = (&self.write_buffer, buffered_record) {
                 wb.add_write(Operation::Insert, record, 0)?;
             }
@@ -539,6 +549,8 @@ impl FeoxStore {
             scc::hash_map::Entry::Vacant(_) => return Err(FeoxError::KeyNotFound),
         };
 
+        #[cfg(feature = "verif")]
+        crate::verif::sched("delete.before_enqueue", 0, 0);
         self.remove_cached(key, &record);
 
         // Queue deletion for persistence if write buffer exists and not memory-only
@@ -714,6 +726,8 @@ impl FeoxStore {
                     .duration_since(UNIX_EPOCH)
                     .unwrap_or_default()
                     .as_nanos() as u64;
+                #[cfg(feature = "verif")]
+                let now = crate::verif::now_ns(now);
                 if now > ttl_expiry {
                     self.stats.ttl_expired_lazy.fetch_add(1, Ordering::Relaxed);
                     return Err(FeoxError::KeyNotFound);
